@@ -36,6 +36,10 @@ func guessStreamURIs(c *muxCfg) []string {
 func scC07(r *Run) {
 	T := r.T
 	g := &muxGen{variants: allVariants, minCalls: 10, maxCalls: 120, paramChanges: true, fastRotation: T.Chance(1, 2)}
+	if T.Chance(1, 6) {
+		// a stream that never carries a PPS: the first rotation fails, Write returns an error, the application closes
+		g.noPPS, g.forceVideo, g.paramChanges = true, true, false
+	}
 	cfg := genMuxCfg(r, g)
 	script := genScript(r, cfg, g)
 	w, err := newMuxWorld(r, cfg, script)
